@@ -116,13 +116,13 @@ Proof.
 Qed.
 
 (* C11_subdiv_range *)
-Theorem subdiv_range bbox tol tol_deC bez1 bez2 maxits res :
-  bezier_intersections N bbox tol tol_deC bez1 maxits bez2 = IOk res ->
+Theorem subdiv_range rm_fixed bbox tol tol_deC bez1 bez2 maxits res :
+  bezier_intersections N rm_fixed bbox tol tol_deC bez1 maxits bez2 = IOk res ->
   forall t1 t2, In (t1, t2) res ->
     exists k, dyadic_odd t1 k /\ dyadic_odd t2 k /\ 0 < t1 < 1 /\ 0 < t2 < 1.
 Proof.
   intros H t1 t2 Hin.
-  destruct (subdiv_witness N bbox tol tol_deC bez1 bez2 maxits res H (t1, t2) Hin)
+  destruct (subdiv_witness N rm_fixed bbox tol tol_deC bez1 bez2 maxits res H (t1, t2) Hin)
     as (b1 & b2 & k & S1 & S2 & _).
   cbn [fst snd] in *. apply sub_of_dyadic in S1. apply sub_of_dyadic in S2.
   exists k. repeat split; auto; eapply dyadic_odd_open; eauto.
@@ -329,10 +329,10 @@ Proof.
   repeat split; lra.
 Qed.
 
-Theorem subdiv_distance_partial bbox tol tol_deC bez1 bez2 maxits res :
+Theorem subdiv_distance_partial rm_fixed bbox tol tol_deC bez1 bez2 maxits res :
   deg23 bez1 -> deg23 bez2 ->
   (forall b s, deg23 b -> 0 <= s <= 1 -> inbox (bbox b) (bezier_point N b s)) ->   (* C08: boxes contain the curves *)
-  bezier_intersections N bbox tol tol_deC bez1 maxits bez2 = IOk res ->
+  bezier_intersections N rm_fixed bbox tol tol_deC bez1 maxits bez2 = IOk res ->
   forall t1 t2, In (t1, t2) res ->
   exists b1 b2,
     let '(x1, X1, y1, Y1) := bbox b1 in
@@ -342,7 +342,7 @@ Theorem subdiv_distance_partial bbox tol tol_deC bez1 bez2 maxits res :
     /\ (X1 - x1) * (Y1 - y1) < tol_deC /\ (X2 - x2) * (Y2 - y2) < tol_deC.
 Proof.
   intros D1 D2 Hbox H t1 t2 Hin.
-  destruct (subdiv_witness N bbox tol tol_deC bez1 bez2 maxits res H (t1, t2) Hin)
+  destruct (subdiv_witness N rm_fixed bbox tol tol_deC bez1 bez2 maxits res H (t1, t2) Hin)
     as (b1 & b2 & k & S1 & S2 & Hi & A1 & A2).
   cbn [fst snd] in *.
   destruct (sub_of_param N NumR_ok bez1 b1 t1 k D1 S1) as [Db1 _].
